@@ -699,6 +699,7 @@ PROPS = {
                     {"kind": "spec", "name": "mixed", "profile": "mixed", "count": {"quick": 320, "thorough": 8000}, "salt": 152},
                     {"kind": "guess", "name": "mixed", "profile": "mixed", "count": {"quick": 320, "thorough": 8000}, "salt": 153},
                     {"kind": "cli", "name": "verbose", "profile": "verbose", "count": {"quick": 32, "thorough": 300}, "salt": 154},
+                    {"kind": "cli", "name": "evalends", "profile": "evalends", "count": {"quick": 16, "thorough": 120}, "salt": 156},
                     {"kind": "meta", "name": "meta", "profile": "mixed", "count": {"quick": 96, "thorough": 3000}, "salt": 155}],
         "assumptions": [
             "partial: 'never hangs' is proved as progress of the controller model (stop_drains; Poll.poll_returns: one poll takes at most length(ready)+2 select-loop turns, with the regenerated guard of the abort branch) under the property's assumption that every evaluation ends; that the runtime delivers completions and wakes the future is not provable here",
